@@ -30,4 +30,21 @@ var properties = map[string]*Property{
 		OutsideClaim: []string{"call sequences longer than 3 (quick) / 4 (thorough) calls from New, or longer than 2 calls from each of the 5x2x2 directly constructed cursor/error/emitted states",
 			"WithGroupID options; argument strings other than one valid and one blank representative"},
 	},
+	"C05": {
+		ID: "C05",
+		Runs: []Run{
+			{Dir: "c05", Pkg: "internal/execute/sm/actions", Fn: "VerifC05Count", Needs: []string{"overrun explored", "wrong type explored", "retry explored", "retry budget exhausted", "timeout message recorded"}},
+			{Dir: "c05", Pkg: "internal/execute/sm/actions", Fn: "VerifC05Check", Needs: []string{"overrun explored", "wrong type explored", "retry budget exhausted"}},
+			{Dir: "c05", Pkg: "internal/execute/sm/actions", Fn: "VerifC05AnyRetries", Needs: []string{"overrun explored", "wrong type explored", "retry explored"}},
+		},
+		Assumptions: append([]string{
+			"model plugin: the verdict of every invocation (ok, permanent, transient, wrong response type, overrun) is a solver variable; an overrunning plugin returns a retryable error only after its context is done",
+			"Timeout >= 5s (what Submit enforces, C16); an attempt's deadline passes only when the plugin's verdict is overrun (latency is the plugin's choice)",
+			"retry library (Azure/retry exponential.Backoff.Retry) replaced by its control-flow model: retry until success, errors.Is(err, ErrPermanent), or a done context; policy has no MaxAttempts and no transformers; interval arithmetic dropped",
+			"worker.Pool.Submit modelled as goroutine spawn; statemachine.Run is the real code with OTEL spans stubbed",
+			"a failed vault write is log.Fatalf (process exit) and therefore outside the property; the model vault never fails",
+		}, commonAssumptions...),
+		OutsideClaim: []string{"count clause for Retries > R (R=2 quick, 3 thorough): VerifC05AnyRetries covers every Retries value for the other clauses but cuts the all-transient script after 4 (5) attempts",
+			"timeouts shorter than 5s; plugins that ignore cancellation forever (the engine abandons such a call by design)"},
+	},
 }
